@@ -78,7 +78,7 @@ def _ug(x, y):
     return x + y
 
 
-USER_FUNCS = {'uf': _uf, 'ug': _ug}
+USER_FUNCS = {'uf': _uf, 'ug': _ug, 'ufx': _uf, 'ug2': _uf}
 _IMPL = {}
 
 
@@ -592,6 +592,51 @@ class Gen:
                 self.add('Sum', cfg, author, student(**{box: text}), kind, expect, honest=honest, twin=honest,
                          entered=entered, place=box, term=T, position=cfg['input_positions'][box])
 
+    def required_substring_family(self, cls, defaults):
+        """required_functions: the cheat avoids the required function f but calls, in a neutral term, another AVAILABLE function
+        whose name contains f's name (every such pair of the grader's function table, and user functions uf/ufx, ug/ug2),
+        nested in arguments, exponents and array entries"""
+        rng = self.rng
+        names = sorted(set(defaults) - {'fact', 'factorial'}) + ['uf', 'ufx', 'ug2']
+        pairs = [(f, g) for f in names for g in names if f != g and f in g and f not in ('re', 'im', 'max', 'min')]
+        if cls != 'Matrix':
+            pairs = [p for p in pairs if p[1] not in ('ctrans', 'trans')]
+        pairs = [p for p in pairs if p[0] not in ('trans',)]
+        two_args = ('arctan2',)
+        big = ('arcsec', 'arccsc', 'arccosh', 'arccoth', 'arccot')
+
+        def call(fn):
+            if fn in two_args:
+                return '%s(1,2)' % fn
+            if fn == 'ug':
+                return 'ug(1,2)'
+            return '%s(%s)' % (fn, '2' if fn in big else '0.5')
+        for f, g in rng.sample(pairs, min(len(pairs), 6 if getattr(self, 'depths', 2) == 2 else 20)):
+            cfg = {'variables': ['x', 'y'], 'user_functions': ['uf', 'ufx', 'ug2'], 'required_functions': [f],
+                   'forbidden_message': FORBIDDEN_MESSAGE, 'sample_from': {'x': [1, 3], 'y': [1, 3]}}
+            cfg.update(author_options(rng, cls))
+            B = 'x*y+1'
+            if cls == 'Numerical':
+                for k in ('variables', 'sample_from', 'samples', 'failable_evals'):
+                    cfg.pop(k, None)
+                B = '7'
+            if cls == 'Matrix':
+                cfg['max_array_dim'] = 1
+                B = '[x*y,1]'
+            H = '%s+0*%s' % (B, call(f)) if cls != 'Matrix' else '[x*y+0*%s,1]' % call(f)
+            honest = self.add(cls, cfg, H, H, 'honest', 'credit')
+            T = call(g)
+            forms = ['%s+0*%s' % (B, T), '(%s)*2^(0*%s)' % (B, T), 'uf(%s+0*%s)' % (B, T), '%s+0*uf(ufx(%s))' % (B, T)]
+            if cls == 'Matrix':
+                forms = ['[x*y+0*%s,1]' % T, '[x*y,2^(0*%s)]' % T, '%s+0*%s*[1,1]' % (B, T), '[uf(x*y+0*%s),1]' % T]
+            if g == 'ufx':
+                forms = [t for t in forms if 'uf(' not in t.replace('ufx(', '')]     # must not call uf itself
+            if f == 'uf':
+                forms = [t for t in forms if 'uf(' not in t.replace('ufx(', '')]
+            for text in rng.sample(forms, min(2, len(forms))):
+                self.add(cls, cfg, H, spaced(rng, text), 'required', 'invalid', honest=honest, twin=honest, term=T,
+                         corpus='required-substring', pair=[f, g])
+
     def sum_corpus(self):
         """deterministic witnesses: empty index range; author's own fields validated as student input"""
         fields = ['lower', 'upper', 'summand', 'summation_variable']
@@ -870,6 +915,10 @@ def generate(seed, tier, escalate):
         g.sampler_sibling_family()
     for _ in range(60 if tier == 'thorough' else (16 if escalate else 8)):
         g.sum_positions_family()
+    import mitxgraders
+    for cls, klass in (('Formula', mitxgraders.FormulaGrader), ('Numerical', mitxgraders.NumericalGrader),
+                       ('Matrix', mitxgraders.MatrixGrader)):
+        g.required_substring_family(cls, list(klass.default_functions))
     if tier == 'thorough':
         fam = {'Formula': 260, 'Numerical': 90, 'Matrix': 130, 'Sum': 170, 'List': 90}
         per = 8
@@ -1181,7 +1230,7 @@ def witness_of(spec, obs, what):
     if spec.get('history'):
         w['spec']['history'] = spec['history']
         w['history_outcomes'] = obs.get('history')
-    for k in ('term', 'box', 'shape', 'place', 'entered', 'author_field', 'corpus', 'last_failure', 'position'):
+    for k in ('term', 'box', 'shape', 'place', 'entered', 'author_field', 'corpus', 'last_failure', 'position', 'pair'):
         if k in spec:
             w[k] = spec[k]
     return w
